@@ -140,3 +140,11 @@ package ast
 //@   at call WrapBytes: assert {string.content.is.escaped.before.it.is.quoted} value.Kind == ValueKindString ==> (forall k in 0..len(arg0) :: arg0[k] >= 0x20)
 //@   modifies *
 //@   safety none
+
+// C17: a freshly imported input value definition carries no directives (the importer adds them afterwards)
+//@ func Document.AddInputValueDefinition
+//@   ensures {appended.as.the.last.definition} result == len(d.InputValueDefinitions) - 1 && result >= 0 && d.InputValueDefinitions[result].HasDirectives == inputValueDefinition.HasDirectives
+//@   modifies *
+//@ func Document.ImportInputValueDefinition
+//@   ensures {the.new.definition.is.the.last.one.and.has.no.directives} result == len(d.InputValueDefinitions) - 1 && result >= 0 && !d.InputValueDefinitions[result].HasDirectives
+//@   modifies *
